@@ -62,7 +62,7 @@ def layout(rng, plan, esz, asz, style):
     pos = 0
     for rec in order:
         if style != 'dense' and rec != ('e', 0):
-            pos += rng.choice([0, 0, 4, 8, 12, 40])
+            pos += rng.choice([0, 0, 4, 8, 12, 40, 1, 2, 6])      # displacements are byte counts: any value, aligned or not
         if rec[0] == 'e':
             plan[rec[1]]['off'] = pos
             pos += esz
@@ -70,7 +70,7 @@ def layout(rng, plan, esz, asz, style):
             plan[rec[1]]['aux'][rec[2]]['off'] = pos
             pos += asz
     if style != 'dense':
-        pos += rng.choice([0, 4, 16])
+        pos += rng.choice([0, 4, 16, 3])
     return pos
 
 
@@ -248,6 +248,7 @@ def run_case(kind, idx, rng, sh):
     queries = list(assigned)
     rng.shuffle(queries)
     queries = queries[:25] + [q for q in (0x7777, 0, 1, 0x8001, 0xffff) if q not in assigned]
+    queries += queries[:6]          # the same index asked again: the answer must not depend on having been asked before
     for q in queries:
         poison([st], rng)
         r = sec.get_version(q)
